@@ -220,6 +220,28 @@ Proof.
 Qed.
 Print Assumptions find_authorized_keys_sound.
 
+(** the threshold condition under which [AccessStructure] / [HigherLevelAccessStructure] deserialize:
+    exactly 1 <= threshold <= number of keys - in particular n-of-n (and 1-of-1) structures are legal *)
+Theorem access_structure_wf_iff : forall acc,
+  access_structure_wf acc = true <-> 1 <= au_threshold acc <= len (au_keys acc).
+Proof.
+  intros acc. unfold access_structure_wf. rewrite andb_true_iff, N.ltb_lt, N.leb_le. lia.
+Qed.
+Print Assumptions access_structure_wf_iff.
+
+(** n-of-n: decodable, accepted when all n authorised keys sign, rejected with n-1 signatures; (n+1)-of-n is
+    not decodable and never accepted *)
+Example update_n_of_n_nonvacuous :
+  access_structure_wf (mkAS [0] 1) = true /\ update_verify_bits 1 (mkAS [0] 1) [(0, true)] = true /\
+  access_structure_wf (mkAS [0; 1] 2) = true /\ update_verify_bits 2 (mkAS [0; 1] 2) [(0, true); (1, true)] = true /\
+  update_verify_bits 2 (mkAS [0; 1] 2) [(1, true)] = false /\
+  access_structure_wf (mkAS [0; 1; 2] 3) = true /\ update_verify_bits 3 (mkAS [0; 1; 2] 3) [(0, true); (1, true); (2, true)] = true /\
+  update_verify_bits 3 (mkAS [0; 1; 2] 3) [(0, true); (2, true)] = false /\
+  access_structure_wf (mkAS [0; 1; 2] 4) = false /\ update_verify_bits 3 (mkAS [0; 1; 2] 4) [(0, true); (1, true); (2, true)] = false /\
+  access_structure_wf (mkAS [0] 2) = false /\ access_structure_wf (mkAS [] 1) = false.
+Proof. vm_compute. repeat split. Qed.
+Print Assumptions update_n_of_n_nonvacuous.
+
 (** ------------------------------------------------------------------ digest binding *)
 (** distinct (header, payload) give distinct hash inputs - v0, v1 (with the domain prefix) and updates *)
 Theorem digest_injective_preimage :
